@@ -159,6 +159,50 @@ def rule_r15(body, hits, stub_body=None, meta=None):
     return out
 
 
+def rule_r16(body, hits):
+    """R16: `let PAT0 = (LO..HI).try_fold(INIT, |ACCPAT, _| { BODY })?;` is replaced by the definition of
+    Iterator::try_fold (`for x in iter { acc = f(acc, x)?; } Ok(acc)`) with the closure applied in place:
+         let PAT0 = { let mut __acc = INIT; let mut __k = LO; while __k < HI { __k += 1; let ACCPAT = __acc; BODY' } __acc };
+    (a counted `while`, because Verus for-loops do not support `continue`)
+    where in BODY' a closure-level `return Ok(E);` becomes `{ __acc = E; continue; }`, the closure's final `Ok(E)` becomes
+    `__acc = E;`, and `?` keeps its meaning (an error leaves try_fold and, through the trailing `?`, the function).
+    Needed because Verus has no specification for provided trait methods such as try_fold, nor for mutable captures."""
+    m = mask(body)
+    mm = re.search(r"let\s+(\([^=]*?\))\s*=\s*\((\w+)\.\.(\w+)\)\.try_fold\(", m)
+    if not mm:
+        raise AnchorLost("R16: try_fold statement not found")
+    op = mm.end() - 1
+    cl = match_close(m, op)
+    inner = body[op + 1:cl]
+    mi = mask(inner)
+    depth = 0
+    k = 0
+    while k < len(mi):
+        ch = mi[k]
+        if ch in "([{":
+            depth += 1
+        elif ch in ")]}":
+            depth -= 1
+        elif ch == "," and depth == 0:
+            break
+        k += 1
+    init = inner[:k].strip()
+    clo = inner[k + 1:].strip()
+    cm = re.match(r"\|\s*(\(.*?\))\s*,\s*_\s*\|\s*\{(.*)\}\s*$", clo, re.S)
+    tail = re.match(r"\s*\?\s*;", body[cl + 1:])
+    if not cm or not tail:
+        raise AnchorLost("R16: try_fold closure not in the expected shape")
+    accpat, cbody = cm.group(1), cm.group(2)
+    cbody, n1 = re.subn(r"return\s+Ok\((.*?)\)\s*;", r"{ __acc = \1; continue; }", cbody, flags=re.S)
+    cbody, n2 = re.subn(r"Ok\(\s*(\([^()]*\))\s*\)\s*$", r"__acc = \1;", cbody.rstrip(), flags=re.S)
+    if n2 != 1:
+        raise AnchorLost("R16: closure does not end in Ok((..))")
+    rep = ("let %s = { let mut __acc = %s; let mut __k = %s; while __k < %s { __k += 1; let %s = __acc; %s } __acc };"
+           % (mm.group(1), init, mm.group(2), mm.group(3), accpat, cbody))
+    hits["R16"] = hits.get("R16", 0) + 1
+    return body[:mm.start()] + rep + body[cl + 1 + tail.end():]
+
+
 def apply_rules(body, rules, hits):
     for r in rules:
         if r not in RULES:
@@ -389,7 +433,9 @@ class Extractor:
                 sig = re.sub(r"\bfn\s+%s\b(?!\s*<)" % fname, "fn %s%s" % (fname, val.strip()), sig, count=1)
         for key, val in opts:
             if key == "prerules":
-                body = apply_rules(body, [r for r in val.split() if r not in ("R14", "R15")], hits)
+                body = apply_rules(body, [r for r in val.split() if r not in ("R14", "R15", "R16")], hits)
+                if "R16" in val.split():
+                    body = rule_r16(body, hits)
                 if "R14" in val.split():
                     body = rule_r14(body, hits)
                 if "R15" in val.split():
@@ -565,7 +611,7 @@ class Extractor:
         for k, v in hits.items():
             self.meta["rule_hits"][k] = self.meta["rule_hits"].get(k, 0) + v
         mraw = mask(raw)
-        callees = sorted(set(re.findall(r"\b([A-Za-z_][A-Za-z_0-9]*)\s*(?:::\s*<[^>]*>\s*)?\(", mraw)) |
+        callees = sorted(set(re.findall(r"(?<![A-Za-z_0-9:])((?:[A-Za-z_][A-Za-z_0-9]*::)*[A-Za-z_][A-Za-z_0-9]*)\s*(?:::\s*<[^>]*>\s*)?\(", mraw)) |
                          set(m_ + "!" for m_ in re.findall(r"\b([A-Za-z_][A-Za-z_0-9]*)!", mraw)))
         self.meta["functions"].append({
             "callees": callees, "closures": len(closures(raw[raw.find("{"):])),
